@@ -87,6 +87,84 @@ def find_fn(src, name):
     return block_after(src, m.end())
 
 
+
+def match_arms(fn_src, scrutinee_re):
+    """patterns (text before `=>`) of the top-level arms of the first `match <scrutinee> {` in fn_src"""
+    m = re.search(r"match\s*" + scrutinee_re + r"\s*\{", fn_src)
+    if not m:
+        return None
+    body = block_after(fn_src, m.end() - 1)
+    if body is None:
+        return None
+    body = body[1:-1]
+    arms, depth, cur, i = [], 0, "", 0
+    while i < len(body):
+        c = body[i]
+        if c in "([{":
+            depth += 1
+        elif c in ")]}":
+            depth -= 1
+        if depth == 0 and body.startswith("=>", i):
+            arms.append(cur.strip().lstrip(",").strip())
+            # skip the arm's expression: up to the next top-level `,` or the end of a top-level block
+            i += 2
+            while i < len(body) and body[i].isspace():
+                i += 1
+            if i < len(body) and body[i] == "{":
+                blk = block_after(body, i)
+                i += len(blk) if blk else 1
+            else:
+                d = 0
+                while i < len(body):
+                    if body[i] in "([{":
+                        d += 1
+                    elif body[i] in ")]}":
+                        d -= 1
+                    elif body[i] == "," and d == 0:
+                        break
+                    i += 1
+            cur = ""
+            continue
+        cur += c
+        i += 1
+    return arms
+
+
+def schema_pair_arms(fn_src, scrutinee_re):
+    """(kind, kind) for every alternative of every arm that matches two `Schema::Kind` patterns; an arm whose
+    alternatives cannot be read as such pairs (nested or-patterns, guards) contributes ("?", text)"""
+    arms = match_arms(fn_src, scrutinee_re)
+    if arms is None:
+        return None
+    out = []
+    for a in arms:
+        if a.strip() in ("_", "(_, _)"):
+            continue
+        # split on top-level `|`
+        alts, depth, cur = [], 0, ""
+        for c in a:
+            if c in "([{":
+                depth += 1
+            elif c in ")]}":
+                depth -= 1
+            if c == "|" and depth == 0:
+                alts.append(cur)
+                cur = ""
+            else:
+                cur += c
+        alts.append(cur)
+        for alt in alts:
+            alt = " ".join(alt.split())
+            if re.fullmatch(r"\(\s*\w+\s*,\s*\w+\s*\)", alt):
+                continue   # catch-all binding both sides
+            m = re.fullmatch(r"\(\s*Schema::(\w+)(?:\([^()|]*\))?\s*,\s*Schema::(\w+)(?:\([^()|]*\))?\s*\)", alt)
+            if m:
+                out.append((m.group(1), m.group(2)))
+            else:
+                out.append(("?", alt[:60]))
+    return sorted(out)
+
+
 def lean_str(s):
     return '"' + s.replace("\\", "\\\\").replace('"', '\\"') + '"'
 
@@ -252,6 +330,17 @@ def main():
     b = find_item(lib, r"impl\s+Deserialize\s+for\s+SchemaPrimitive\s*\{") or ""
     ptags_r = re.findall(r"(\d+)\s*=>\s*SchemaPrimitive::(\w+)", b)
     w("def schemaPrimTagsRead : List (Nat × String) := %s" % lean_list("(%s, %s)" % (v, lean_str(k)) for v, k in ptags_r))
+    # ---- which pairs of schema kinds the comparison functions treat together (every other pair: "different")
+    for lean_name, fn_name, scrut in (("diffSchemaArms", "diff_schema", r"\(\s*a\s*,\s*b\s*\)"),
+                                      ("layoutCompatibleArms", "layout_compatible", r"\(\s*self\s*,\s*b_native\s*\)")):
+        src = None
+        for mm in re.finditer(r"\bfn\s+%s\s*\(" % fn_name, lib):
+            cand = block_after(lib, mm.end())
+            if cand and re.search(r"match\s*" + scrut, cand) and "Schema::Struct" in cand:
+                src = cand
+                break
+        arms = schema_pair_arms(src, scrut) if src else None
+        w("def %s : Option (List (String × String)) := %s" % (lean_name, "none" if arms is None else "some " + lean_list("(%s, %s)" % (lean_str(a), lean_str(b)) for a, b in arms)))
     w("")
     w("end Sfv.Generated")
     text = "\n".join(L) + "\n"
